@@ -23,6 +23,10 @@ type Mode struct {
 	AsRequest, AsResponse bool
 	IgnoreReadOnly        bool // ExcludeReadOnlyValidations
 	IgnoreWriteOnly       bool // ExcludeWriteOnlyValidations
+	// Defs: the component schemas a {"$ref": "#/components/schemas/<name>"} node stands for. Only
+	// references that are reached again after descending into the value (items, properties,
+	// additionalProperties) are well-founded; the generators produce no others.
+	Defs map[string]any
 }
 
 // Result carries the verdict and whether the evaluation touched arithmetic where float64
@@ -87,6 +91,20 @@ func sameMap(a, b map[string]any) bool {
 
 // eval returns ("", "") when valid, else the failing keyword and the value path.
 func (e *ev) eval(s map[string]any, v any, path string) (string, string) {
+	if r, ok := s["$ref"].(string); ok && e.mode.Defs != nil {
+		name := r
+		for i := len(r) - 1; i >= 0; i-- {
+			if r[i] == '/' {
+				name = r[i+1:]
+				break
+			}
+		}
+		t, ok := e.mode.Defs[name].(map[string]any)
+		if !ok {
+			panic("refschema: no definition for " + r)
+		}
+		return e.eval(t, v, path)
+	}
 	if v == nil {
 		if nb, ok := e.has(s, "nullable"); ok {
 			if b, _ := nb.(bool); b {
